@@ -59,7 +59,7 @@ func replaceFunc(p *gen.Prog, old, neu *gen.Func) {
 }
 
 func withFunc(p *gen.Prog, old, neu *gen.Func, pkg string) *gen.Prog {
-	q := &gen.Prog{Pkg: pkg, Import: p.Import, SeqImported: p.SeqImported}
+	q := &gen.Prog{Pkg: pkg, Import: p.Import, SeqImported: p.SeqImported, LoadTest: p.LoadTest}
 	for _, f := range p.Files {
 		nf := &gen.File{Name: f.Name, Decls: f.Decls, RefDecls: f.RefDecls, UsesAPI: f.UsesAPI, Extern: f.Extern, Imports: f.Imports}
 		for _, fn := range f.Funcs {
